@@ -56,6 +56,31 @@ Cases == UNION { UNION { { [obj |-> o.name, field |-> o.fields[i][1], index |-> 
 ASSUME PrintT(ToJson([objects |-> {[name |-> o.name, fields |-> [i \in 1..Len(o.fields) |-> [name |-> o.fields[i][1], kind |-> o.fields[i][2].kind, n |-> o.fields[i][2].n]]] : o \in Objects},
                       cases |-> Cases]))
 
+(* ---- the byte-string wire forms (from_bytes / from_sealed_bytes) ------------------------------------------------
+   The third carrier has no counts at all: the fields are concatenated in wire order, fixed ones first, the payload last,
+   and the decoder cuts the string at the fixed lengths.  The rule, stated once: a string decodes iff it is at least as long
+   as the fixed prefix; the parts are then (first n1 bytes, next n2 bytes, ..., the rest).  The rule does not mention the
+   container that will hold a fixed part - one with a length of its own (stack array) or one without (Vec): a Vec-held tag
+   does not make a 3-byte string a box. *)
+WireForms == { [obj |-> "DryocSecretBox", form |-> "from_bytes",        fixed |-> <<16>>],
+               [obj |-> "DryocBox",       form |-> "from_bytes",        fixed |-> <<16>>],       \* tag, data (no ephemeral key)
+               [obj |-> "DryocBox",       form |-> "from_sealed_bytes", fixed |-> <<32, 16>>],   \* ephemeral key, tag, data
+               [obj |-> "SignedMessage",  form |-> "from_bytes",        fixed |-> <<64>>] }
+Holders == {"sized", "unsized"}
+RECURSIVE SumSeq(_)
+SumSeq(q) == IF q = <<>> THEN 0 ELSE Head(q) + SumSeq(Tail(q))
+Prefix(w) == SumSeq(w.fixed)
+WireDecodes(w, holder, len) == len >= Prefix(w)
+WireParts(w, len) == w.fixed \o << len - Prefix(w) >>       \* lengths of the decoded parts
+WireCases == UNION { { [obj |-> w.obj, form |-> w.form, holder |-> h, prefix |-> Prefix(w), len |-> l,
+                        ok |-> WireDecodes(w, h, l), parts |-> IF WireDecodes(w, h, l) THEN WireParts(w, l) ELSE <<>>] :
+                       h \in Holders, l \in 0..(Prefix(w) + 3) } : w \in WireForms }
+\* nothing shorter than the fixed prefix decodes, whatever holds the fixed part; everything else does, and loses no byte
+WireStrict == \A c \in WireCases : (c.ok = (c.len >= c.prefix)) /\ (c.ok => SumSeq(c.parts) = c.len)
+HolderIrrelevant == \A w \in WireForms, l \in 0..80 : WireDecodes(w, "sized", l) = WireDecodes(w, "unsized", l)
+ASSUME WireStrict /\ HolderIrrelevant
+ASSUME PrintT(ToJson([wirecases |-> WireCases]))
+
 VARIABLE x
 Init == x = 0
 Next == x' = x
